@@ -158,6 +158,16 @@ type Traffic struct {
 	G         *mon.RNG
 	UDPSize   int
 	Hostile   bool // hostile field contents (C05 pipeline tier)
+	mix       bool // next Data(): add a data set of a template this exporter never announced
+}
+
+// DataMixed is Data with one more set: a data set of a template id the exporter never announced
+// (random body, consistent length) at a random position among the decodable sets. The decodable sets
+// must be decoded and published exactly as without it (IPFIX and NetFlow v9 only).
+func (t *Traffic) DataMixed(e []byte, id int, big bool) []byte {
+	t.mix = true
+	defer func() { t.mix = false }()
+	return t.Data(e, id, big)
 }
 
 // NewTraffic builds exporters (random, or the given fixed list) and their templates.
@@ -266,6 +276,13 @@ func (t *Traffic) Data(e []byte, id int, big bool) []byte {
 			}
 			used += wire.SetLen(&s)
 			sets = append(sets, s)
+		}
+		if t.mix {
+			u := wire.Set{Kind: wire.SetRaw, SetID: uint16(5000 + g.Intn(1000)), RawBody: g.Bytes(4 * g.Range(1, 6))}
+			if used+4+len(u.RawBody) <= t.UDPSize-4 {
+				at := g.Intn(len(sets) + 1)
+				sets = append(append(append([]wire.Set{}, sets[:at]...), u), sets[at:]...)
+			}
 		}
 		var b []byte
 		if t.Proto == "ipfix" {
